@@ -25,6 +25,7 @@ from ..selftest import Twin
 from ._engine import CL, CL_REL, RUNNER, branch_for, param, union_members
 
 EXPLANATION = __doc__.split("\n\n", 1)[1]
+TECHNIQUE = 'static analysis: volatile-work inventory vs replay path, write-ahead must-pass, finite AST evaluation of the exit-command mapping, resume callers consult exit command'
 TRUSTED = ["CPython ast", "the store returns ticks in append order"]
 PR = "llama_agents.server._runtime.persistence_runtime"
 PR_REL = "packages/llama-agents-server/src/llama_agents/server/_runtime/persistence_runtime.py"
